@@ -169,7 +169,7 @@ def judge_mixed(version, b, le, u):
     return out
 
 
-FORMS = [("f4", "f8", "f8"), ("f8", "f4", "f8"), ("f8", "f8", "f4"), ("f4", "f4", "f4"), ("f8", "i8", "f8"), ("f8", "i4", "f4"), (">f8", ">f8", ">f8"), (">f4", "f8", ">f4")]
+FORMS = [("i8", "f8", "f8"), ("i4", "i8", "i8"), ("f4", "f8", "f8"), ("f8", "f4", "f8"), ("f8", "f8", "f4"), ("f4", "f4", "f4"), ("f8", "i8", "f8"), ("f8", "i4", "f4"), (">f8", ">f8", ">f8"), (">f4", "f8", ">f4")]
 FORM_TOL = {"f4": 1e-5, ">f4": 1e-5}
 
 
